@@ -12,6 +12,7 @@ import (
 	"fmt"
 	"io"
 	"net"
+	"strings"
 	"sync"
 	"sync/atomic"
 	"time"
@@ -192,10 +193,31 @@ func (p *Proxy) acceptLoop() {
 		p.mu.Lock()
 		p.accepts = append(p.accepts, time.Now())
 		pol := p.policy
-		if pol == "reject" {
+		if strings.HasPrefix(pol, "reject") {
 			p.rejected++
 		}
 		p.mu.Unlock()
+		if pol == "reject-http503" || pol == "reject-http200" {
+			// the dial reaches something that speaks HTTP but is not (yet) the service: a gateway answering 503, or a
+			// plain 200 page, instead of the protocol switch
+			go func(c net.Conn) {
+				defer c.Close()
+				c.SetDeadline(time.Now().Add(2 * time.Second))
+				br := bufio.NewReader(c)
+				for {
+					line, err := br.ReadString('\n')
+					if err != nil || len(line) <= 2 {
+						break
+					}
+				}
+				if pol == "reject-http503" {
+					c.Write([]byte("HTTP/1.1 503 Service Unavailable\r\nContent-Type: text/plain\r\nContent-Length: 12\r\nConnection: close\r\n\r\nstarting up\n"))
+				} else {
+					c.Write([]byte("HTTP/1.1 200 OK\r\nContent-Type: text/html\r\nContent-Length: 7\r\nConnection: close\r\n\r\n<html>\n"))
+				}
+			}(c)
+			continue
+		}
 		if pol == "reject" {
 			if tc, ok := c.(*net.TCPConn); ok {
 				tc.SetLinger(0)
